@@ -46,6 +46,10 @@ def run(ctx):
                     opts["metadata"] = gen.json_value(rng, maxdepth=2)
                 if rng.random() < 0.3:
                     opts["raw_metadata"] = gen.raw_metadata(rng)[:40].hex()
+                if rng.random() < 0.02:
+                    # one record far larger than any read-ahead window or buffer
+                    opts["raw_metadata"] = rng.randbytes(rng.choice([20000, 40000])).hex()
+                    opts["metadata"] = {"big": "y" * rng.choice([70000, 140000])}
                 if rng.random() < 0.5:
                     opts["time"] = str(gen.time_value(rng))
                 if opts:
